@@ -1,5 +1,5 @@
 (* C03 property theorems (sheet core). Nothing but statements closed by [exact]. *)
-From VF Require Import Base.Prelude Generated.Consts Sheet.Model Sheet.Proofs.
+From VF Require Import Base.Prelude Generated.Consts Sheet.Model Sheet.Proofs C03.Merge C03.MergeProofs.
 
 (* every state reachable by any write history satisfies the Dense invariant *)
 Theorem C03_reachable_inv : forall ops, Forall op_ok ops -> WF (run ops empty_sheet).
@@ -43,4 +43,35 @@ Print Assumptions C03_read.
 Example C03_ex :
   let sh := run [OSet 3 2 0 [53]; OSet 1 1 2 [104; 105]; OMerge 1 1 2 2; OSet 2 2 0 [55]; OSave; OSet 3 2 1 [49]] empty_sheet in
   observe sh 2 2 = (0, [55], None, 0) /\ observe sh 1 1 = (0, [55], None, 0) /\ observe sh 3 2 = (1, [49], None, 0) /\ observe sh 3 1 = empty_obs.
+Proof. vm_compute. repeat split. Qed.
+
+(* the merged ranges reported are always pairwise disjoint: after any history of MergeCell, UnmergeCell and
+   GetMergeCells calls with any overlapping, nested, chained or crossing ranges, no position lies in two of the
+   ranges that mergeOverlapCells leaves (GetMergeCells, UnmergeCell and the worksheet writer all go through it) *)
+Theorem C03_merges_disjoint : forall ops, Forall mop_ok ops ->
+  ForallOrdPairs disjoint (reported ops) /\ Forall rect_ok (reported ops).
+Proof. exact reported_disjoint. Qed.
+Print Assumptions C03_merges_disjoint.
+
+(* the normalisation itself, for every list of ranges; and it never runs out of fuel: the list only gets shorter *)
+Theorem C03_norm_disjoint : forall cells, Forall rect_ok cells ->
+  ForallOrdPairs disjoint (norm cells) /\ Forall rect_ok (norm cells) /\ (length (norm cells) <= length cells)%nat.
+Proof. exact norm_disjoint. Qed.
+Print Assumptions C03_norm_disjoint.
+
+(* what must not change: ranges that do not overlap are reported exactly as given, in the order given; a second
+   read reports what the first did *)
+Theorem C03_norm_fixed : forall cells, Forall rect_ok cells -> ForallOrdPairs disjoint cells -> norm cells = cells.
+Proof. exact norm_fixed. Qed.
+Print Assumptions C03_norm_fixed.
+Theorem C03_read_merges_pure : forall ops, Forall mop_ok ops -> reported (ops ++ [MGet]) = reported ops.
+Proof. exact reported_get_pure. Qed.
+Print Assumptions C03_read_merges_pure.
+
+(* non-vacuity: a chain whose last link joins ranges that none of the earlier unions touched (the case the tree
+   before fix 1e15404 left overlapping), and a cross that UnmergeCell does not see *)
+Example C03_merge_ex :
+  reported [MMerge (1,1,2,2); MMerge (2,2,3,3); MMerge (3,3,4,4); MMerge (7,7,8,8); MMerge (4,4,7,7)] = [(1,1,8,8)] /\
+  reported [MMerge (2,2,3,9); MMerge (5,2,6,3); MGet; MMerge (1,1,5,2)] = [(1,1,6,9)] /\
+  reported [MMerge (1,3,3,3); MMerge (5,5,6,6); MUnmerge (2,1,2,5)] = [(1,3,3,3); (5,5,6,6)].
 Proof. vm_compute. repeat split. Qed.
